@@ -153,6 +153,9 @@ func build(s *VSpec) (*Value, error) {
 		return &Value{K: "pred", P: p}, nil
 	case "lit":
 		b := literal.DefaultBuilder()
+		if litBound > 0 {
+			b = literal.NewBoundedBuilder(litBound)
+		}
 		var l *literal.Literal
 		var err error
 		switch s.T {
